@@ -46,7 +46,10 @@ def ops_of(ctx, f, secret):
             op = CANON[name]
             if op.endswith('_ui') and op != 'ui_pow_ui':
                 op = op[:-3]
-            roles = tuple(r for r in roles if r != 'x')
+            if name == 'gcry_mpi_div' and len(roles) == 5:
+                roles = [roles[0], roles[2], roles[3]]      # (quotient, remainder, dividend, divisor, round)
+            # a converted temporary or scalar stands for the other operand
+            roles = tuple('self' if r == 'self' else 'other' for r in roles[:4])
             out.append((op, roles if op in NONCOMM else None, ev[3]))
     return out
 
@@ -82,7 +85,7 @@ def run(ctx):
 
         def norm(rs):
             # the secure branch may route 'that' through a converted temporary (role x): compare positions of self only
-            return sorted(set((o, tuple(x for x in r if x == 'self')) for o, r in rs))
+            return sorted(set(rs))
         if norm(sr) != norm(pr):
             ctx.bad('R09a', k, 'operands are passed in different roles to the two back ends: secure %s, plain %s' % (norm(sr), norm(pr)), f)
         else:
